@@ -23,6 +23,8 @@ pub mod c18;
 pub mod c19;
 pub mod c20;
 pub mod cli;
+pub mod cls;
+pub mod rho;
 
 pub fn dispatch(name: &str, args: &Args) -> i32 {
     match name {
@@ -48,6 +50,8 @@ pub fn dispatch(name: &str, args: &Args) -> i32 {
         "c19" => c19::run(args),
         "c20" => c20::run(args),
         "cli" => cli::run(args),
+        "cls" => cls::run(args),
+        "rho" => rho::run(args),
         _ => {
             eprintln!("unknown driver {}", name);
             2
